@@ -350,3 +350,322 @@ Theorem sqrt_newton_total : forall a res, wf_num a -> is_fix a = false -> 1 <= n
     /\ canon s /\ canon r.
 Proof. exact sqrt_total. Qed.
 Print Assumptions sqrt_newton_total.
+
+(** ============================== round 2 ============================== *)
+From Coq Require Import QArith.
+From ChibiV Require Import C04.Model7 C04.Model8 C04.Model9 C04.Spec2 C04.SpecFloat C04.Store
+  C04.ProofsComplex C04.ProofsRadixQ C04.ProofsConv C04.ProofsStore C04.ProofsBound.
+
+(** ** round 2 *)
+(** generic dispatch of sexp_add / _sub / _mul / _div over every pair of exact REAL types {fixnum, bignum, ratio}
+    (the x_ functions of Model7): the result is the exact rational of Spec2 (fadd/fsub/fmul/fdiv on the operands' fractions), canonical:
+    [r_ok] = same fraction, integer iff the denominator is 1, fixnum iff it fits, lowest terms, denominator > 1 *)
+Theorem exact_real_add_Q :
+  forall (fuel qf mf : nat) (a b : xnum), wf_x a -> wf_x b -> r_ok (x_add fuel qf mf a b) (fadd (xfr a) (xfr b)).
+Proof. exact ProofsComplex.x_add_ok. Qed.
+Print Assumptions exact_real_add_Q.
+
+Theorem exact_real_sub_Q :
+  forall (fuel qf mf : nat) (a b : xnum), wf_x a -> wf_x b -> r_ok (x_sub fuel qf mf a b) (fsub (xfr a) (xfr b)).
+Proof. exact ProofsComplex.x_sub_ok. Qed.
+Print Assumptions exact_real_sub_Q.
+
+Theorem exact_real_mul_Q :
+  forall (fuel qf mf : nat) (a b : xnum), wf_x a -> wf_x b -> r_ok (x_mul fuel qf mf a b) (fmul (xfr a) (xfr b)).
+Proof. exact ProofsComplex.x_mul_ok. Qed.
+Print Assumptions exact_real_mul_Q.
+
+Theorem exact_real_div_Q :
+  forall (fuel qf mf : nat) (a b : xnum),
+       wf_x a -> wf_x b -> fst (xfr b) <> 0%Z -> r_ok (x_div fuel qf mf a b) (fdiv (xfr a) (xfr b)).
+Proof. exact ProofsComplex.x_div_ok. Qed.
+Print Assumptions exact_real_div_Q.
+
+Theorem exact_real_div_by_zero :
+  forall (fuel qf mf : nat) (a b : xnum),
+       wf_x a -> wf_x b -> fst (xfr b) = 0%Z -> x_of (x_div fuel qf mf a b) = None.
+Proof. exact ProofsComplex.x_div_zero. Qed.
+Print Assumptions exact_real_div_by_zero.
+
+(** every exact x exact entry of the type-pair table incl. complex numbers (the g_ functions of Model7): the result is the exact
+    Gaussian rational of Spec2 (gadd/gsub/gmul/gdiv) with both parts canonical, and a complex object iff the imaginary
+    part is not zero ([g_ok]); operands [wf_g]: canonical parts, complex objects have a non-zero imaginary part *)
+Theorem exact_complex_add_Qi :
+  forall (fuel qf mf : nat) (a b : gnum), wf_g a -> wf_g b -> g_ok (g_add fuel qf mf a b) (gadd (gfr a) (gfr b)).
+Proof. exact ProofsComplex.g_add_ok. Qed.
+Print Assumptions exact_complex_add_Qi.
+
+Theorem exact_complex_sub_Qi :
+  forall (fuel qf mf : nat) (a b : gnum), wf_g a -> wf_g b -> g_ok (g_sub fuel qf mf a b) (gsub (gfr a) (gfr b)).
+Proof. exact ProofsComplex.g_sub_ok. Qed.
+Print Assumptions exact_complex_sub_Qi.
+
+Theorem exact_complex_mul_Qi :
+  forall (fuel qf mf : nat) (a b : gnum), wf_g a -> wf_g b -> g_ok (g_mul fuel qf mf a b) (gmul (gfr a) (gfr b)).
+Proof. exact ProofsComplex.g_mul_ok. Qed.
+Print Assumptions exact_complex_mul_Qi.
+
+Theorem exact_complex_div_Qi :
+  forall (fuel qf mf : nat) (a b : gnum),
+       wf_g a ->
+       wf_g b ->
+       fst (fst (gfr b)) <> 0%Z \/ fst (snd (gfr b)) <> 0%Z -> g_ok (g_div fuel qf mf a b) (gdiv (gfr a) (gfr b)).
+Proof. exact ProofsComplex.g_div_ok. Qed.
+Print Assumptions exact_complex_div_Qi.
+
+(** rationals in radix 2..36: reading the digits of a ratio in lowest terms gives back that ratio (numerator by the
+    fixnum accumulation or the bignum hand-over, denominator in the same radix, sexp_ratio_normalize) *)
+Theorem read_number_signed_handover :
+  forall sg base : Z,
+       sg = 1%Z \/ sg = (-1)%Z ->
+       (2 <= base <= 36)%Z ->
+       forall (ds : list Z) (v : Z),
+       (0 <= v <= FIXMAX)%Z ->
+       Forall (isdigit base) ds ->
+       nval (read_number_signed sg base ds v) = (sg * horner base ds v)%Z /\
+       canon (read_number_signed sg base ds v) /\ wf_num (read_number_signed sg base ds v).
+Proof. exact ProofsRadixQ.read_number_signed_spec. Qed.
+Print Assumptions read_number_signed_handover.
+
+Theorem ratio_radix_roundtrip :
+  forall (fuel qf mf : nat) (sg base : Z) (dn dd : list Z) (n d : Z),
+       sg = 1%Z \/ sg = (-1)%Z ->
+       (2 <= base <= 36)%Z ->
+       Forall (isdigit base) dn ->
+       Forall (isdigit base) dd ->
+       of_radix base dn = n ->
+       of_radix base dd = d ->
+       (1 < d)%Z ->
+       Z.gcd n d = 1%Z ->
+       match read_ratio fuel qf mf sg base dn dd with
+       | RInt _ => False
+       | RRat n' d' => nval n' = (sg * n)%Z /\ nval d' = d /\ canon n' /\ canon d' /\ wf_num n' /\ wf_num d'
+       | _ => True
+       end.
+Proof. exact ProofsRadixQ.ratio_radix_roundtrip. Qed.
+Print Assumptions ratio_radix_roundtrip.
+
+(** exact <-> inexact (SpecFloat = IEEE binary64 as Z bit fields; Model8 = sexp_inexact_to_exact, sexp_double_to_bignum,
+    sexp_double_to_ratio_2, sexp_exact_to_inexact, sexp_bignum_to_double, the repaired sexp_ratio_to_double) *)
+Theorem binary64_decode_encode :
+  forall (neg : bool) (M e : Z),
+       b64_valid M e = true -> b64_decode (b64_encode neg M e) = Some (((if neg then -1 else 1) * M)%Z, e).
+Proof. exact ProofsConv.b64_decode_encode. Qed.
+Print Assumptions binary64_decode_encode.
+
+Theorem inexact_spec_sound :
+  forall n d bits : Z,
+       representable n d = Some bits ->
+       exists m e : Z,
+         b64_decode bits = Some (m, e) /\
+         (if (e <=? 0)%Z then (n * 2 ^ (- e))%Z = (m * d)%Z else n = (m * 2 ^ e * d)%Z).
+Proof. exact ProofsConv.representable_decode. Qed.
+Print Assumptions inexact_spec_sound.
+
+Theorem double_to_bignum_val :
+  forall (fuel : nat) (m e : Z),
+       (Z.abs m < 2 ^ 53)%Z ->
+       (e <= 971)%Z ->
+       (256 <= fuel)%nat ->
+       exists b : big,
+         double_to_bignum fuel (dy_trunc m e) = Some b /\
+         wf_big b /\ bval b = dy_trunc m e /\ fst b = (if (dy_trunc m e <? 0)%Z then (-1)%Z else 1%Z).
+Proof. exact ProofsConv.double_to_bignum_val. Qed.
+Print Assumptions double_to_bignum_val.
+
+Theorem exact_of_double_integer_canonical :
+  forall (fuel rf qf mf : nat) (m e : Z),
+       (Z.abs m < 2 ^ 53)%Z ->
+       (e <= 971)%Z ->
+       (256 <= fuel)%nat ->
+       dy_is_int m e = true ->
+       exists v : num,
+         inexact_to_exact fuel rf qf mf (Some (m, e)) = XNum (RInt v) /\
+         wf_num v /\ canon v /\ nval v = dy_trunc m e /\ fst (dy_val m e) = (nval v * snd (dy_val m e))%Z.
+Proof. exact ProofsConv.exact_of_double_int. Qed.
+Print Assumptions exact_of_double_integer_canonical.
+
+Theorem exact_of_double_exact :
+  forall (fuel rf qf mf : nat) (m e : Z),
+       (Z.abs m < 2 ^ 53)%Z ->
+       (-1074 <= e <= 971)%Z ->
+       (1100 <= fuel)%nat ->
+       exists r : rres,
+         inexact_to_exact fuel rf qf mf (Some (m, e)) = XNum r /\
+         rat_ok r (fst (dy_val m e)) (snd (dy_val m e)) /\
+         (dy_is_int m e = true -> exists v : num, r = RInt v /\ nval v = dy_trunc m e).
+Proof. exact ProofsConv.exact_of_double_exact. Qed.
+Print Assumptions exact_of_double_exact.
+
+Theorem inexact_of_representable_ratio_div :
+  forall (rnd : Q -> option Q) (qf mf : nat) (n d : num) (yn yd : Q),
+       rnd_exact rnd ->
+       num_to_double rnd n = Some yn ->
+       yn == inject_Z (nval n) ->
+       num_to_double rnd d = Some yd ->
+       yd == inject_Z (nval d) ->
+       nval n <> 0%Z ->
+       nval d <> 0%Z ->
+       repr (inject_Z (nval n) / inject_Z (nval d)) ->
+       exists y : Q,
+         exact_to_inexact rnd qf mf (ERat n d) = Some (Some y) /\ y == inject_Z (nval n) / inject_Z (nval d).
+Proof. exact ProofsConv.inexact_of_representable_ratio_div. Qed.
+Print Assumptions inexact_of_representable_ratio_div.
+
+
+
+(** exactness of `inexact` on representable values: the Horner loop of sexp_bignum_to_double rounds nowhere (every prefix and
+    every word of a representable integer is representable); integers (fixnum or bignum); ratios whose parts are in double range *)
+From ChibiV Require Import C04.ProofsConv2.
+
+Theorem bignum_to_double_exact :
+  forall (rnd : Q -> option Q) (x : big),
+       rnd_exact rnd ->
+       wf_big x ->
+       repr (inject_Z (bval x)) -> exists y : Q, bignum_to_double rnd x = Some y /\ y == inject_Z (bval x).
+Proof. exact ProofsConv2.bignum_to_double_exact. Qed.
+Print Assumptions bignum_to_double_exact.
+
+Theorem inexact_of_representable_integer :
+  forall (rnd : Q -> option Q) (qf mf : nat) (v : num),
+       rnd_exact rnd ->
+       wf_num v ->
+       repr (inject_Z (nval v)) ->
+       exists y : Q, exact_to_inexact rnd qf mf (EInt v) = Some (Some y) /\ y == inject_Z (nval v).
+Proof. exact ProofsConv2.inexact_of_representable_integer. Qed.
+Print Assumptions inexact_of_representable_integer.
+
+Theorem inexact_of_representable_exact :
+  forall (rnd : Q -> option Q) (qf mf : nat) (n d : num),
+       rnd_exact rnd ->
+       wf_num n ->
+       wf_num d ->
+       nval n <> 0%Z ->
+       nval d <> 0%Z ->
+       repr (inject_Z (nval n)) ->
+       repr (inject_Z (nval d)) ->
+       repr (inject_Z (nval n) / inject_Z (nval d)) ->
+       exists y : Q,
+         exact_to_inexact rnd qf mf (ERat n d) = Some (Some y) /\ y == inject_Z (nval n) / inject_Z (nval d).
+Proof. exact ProofsConv2.inexact_of_representable_ratio. Qed.
+Print Assumptions inexact_of_representable_exact.
+
+(** the scaled path of the repaired sexp_ratio_to_double (a part beyond the double range): exact for n / 2^j.  PARTIAL: the premises
+    "the plain division is not finite or zero" (needs an overflow hypothesis on rnd) and the three facts about [shift] (they follow from
+    exact_integer_bits = log2 + 1, not proved at word level) stay visible; full statement wanted: forall representable n/d, exact_to_inexact = n/d *)
+Theorem inexact_ratio_scaled_path_partial :
+  forall (rnd : Q -> option Q) (qf mf : nat) (n d : num) (j : Z) (r : fl),
+       rnd_exact rnd ->
+       wf_num n ->
+       wf_num d ->
+       nval n <> 0%Z ->
+       (Z.abs (nval n) < 2 ^ 53)%Z ->
+       (0 < j)%Z ->
+       nval d = (2 ^ j)%Z ->
+       is_zero n = false ->
+       negb (fl_finite (fl_div rnd (num_to_double rnd n) (num_to_double rnd d)))
+       || fl_is_zero (fl_div rnd (num_to_double rnd n) (num_to_double rnd d)) = true ->
+       let shift := (exact_integer_bits d - exact_integer_bits n + 62)%Z in
+       (j <= shift)%Z ->
+       (shift - j <= 971)%Z ->
+       (Z.abs (nval n) * 2 ^ (shift - j) < B)%Z ->
+       repr (inject_Z (nval n) / inject_Z (nval d)) ->
+       ratio_to_double rnd qf mf n d = Some r ->
+       exists y : Q, r = Some y /\ y == inject_Z (nval n) / inject_Z (nval d).
+Proof. exact ProofsConv2.ratio_to_double_scaled. Qed.
+Print Assumptions inexact_ratio_scaled_path_partial.
+
+(** store-passing model (Store.v): no generic operation modifies an object that existed before the call, for all
+    stores and operands incl. aliased ones; which results can alias an operand; refinement to the value-level models *)
+Theorem operands_unchanged :
+  forall (o : op) (σ : store) (a b : value),
+       let '(σ', _) := run o σ a b in forall ref : nat, (ref < length σ)%nat -> lookup σ' ref = lookup σ ref.
+Proof. exact ProofsStore.operands_unchanged. Qed.
+Print Assumptions operands_unchanged.
+
+Theorem store_grows :
+  forall (o : op) (σ : list obj) (a b : value), (length σ <= length (fst (run o σ a b)))%nat.
+Proof. exact ProofsStore.store_grows. Qed.
+Print Assumptions store_grows.
+
+Theorem result_fresh_or_alias :
+  forall (o : op) (σ : store) (a b : value),
+       is_div o = false ->
+       match run o σ a b with
+       | (σ', SV (VRef x)) =>
+           (length σ <= x)%nat \/
+           (exists fuel mf : nat, o = OpQuotient fuel mf) /\ b = VFix 1 /\ a = VRef x /\ σ' = σ
+       | (σ', SV (VFix _)) | (σ', SErr) | (σ', SFuel) => True
+       end.
+Proof. exact ProofsStore.result_fresh_or_alias. Qed.
+Print Assumptions result_fresh_or_alias.
+
+Theorem result_fresh_or_alias_div :
+  forall (fuel qf mf : nat) (σ : store) (a b : value),
+       match s_div fuel qf mf σ a b with
+       | (_, SV (VRef x)) => (length σ <= x)%nat \/ a = VRef x
+       | _ => True
+       end.
+Proof. exact ProofsStore.result_fresh_or_alias_div. Qed.
+Print Assumptions result_fresh_or_alias_div.
+
+Theorem store_refines_value_add :
+  forall (σ : store) (a b : value) (x y : num),
+       absv σ a = Some x -> absv σ b = Some y -> refines (s_add σ a b) (num_add x y).
+Proof. exact ProofsStore.store_refines_value_add. Qed.
+Print Assumptions store_refines_value_add.
+
+Theorem store_refines_value_sub :
+  forall (σ : store) (a b : value) (x y : num),
+       absv σ a = Some x -> absv σ b = Some y -> refines (s_sub σ a b) (num_sub x y).
+Proof. exact ProofsStore.store_refines_value_sub. Qed.
+Print Assumptions store_refines_value_sub.
+
+Theorem store_refines_value_mul :
+  forall (mf : nat) (σ : store) (a b : value) (x y n : num),
+       absv σ a = Some x -> absv σ b = Some y -> num_mul mf x y = Some n -> refines (s_mul mf σ a b) n.
+Proof. exact ProofsStore.store_refines_value_mul. Qed.
+Print Assumptions store_refines_value_mul.
+
+Theorem store_refines_value_quotient :
+  forall (fuel mf : nat) (σ : store) (a b : value) (x y : num),
+       absv σ a = Some x -> absv σ b = Some y -> res_matches (s_quotient fuel mf σ a b) (num_quotient fuel mf x y).
+Proof. exact ProofsStore.store_refines_value_quotient. Qed.
+Print Assumptions store_refines_value_quotient.
+
+Theorem store_refines_value_remainder :
+  forall (fuel mf : nat) (σ : store) (a b : value) (x y : num),
+       absv σ a = Some x -> absv σ b = Some y -> res_matches (s_remainder fuel mf σ a b) (num_remainder fuel mf x y).
+Proof. exact ProofsStore.store_refines_value_remainder. Qed.
+Print Assumptions store_refines_value_remainder.
+
+(** explicit fuel: 64*(la+lb)+3 levels of Karatsuba recursion always suffice (also inside quot_rem) *)
+Theorem mul_karatsuba_fuel_bound :
+  forall x y : big,
+       wf_big x ->
+       wf_big y ->
+       exists r : big,
+         bignum_mul (64 * (length (snd x) + length (snd y)) + 3) x y = Some r /\
+         bval r = (bval x * bval y)%Z /\ wf_big r.
+Proof. exact ProofsBound.mul_karatsuba_fuel_bound. Qed.
+Print Assumptions mul_karatsuba_fuel_bound.
+
+Theorem mul_karatsuba_fuel_enough :
+  forall (x y : big) (f : nat),
+       wf_big x ->
+       wf_big y ->
+       (64 * (length (snd x) + length (snd y)) + 3 <= f)%nat ->
+       exists r : big, bignum_mul f x y = Some r /\ bval r = (bval x * bval y)%Z.
+Proof. exact ProofsBound.mul_karatsuba_fuel_enough. Qed.
+Print Assumptions mul_karatsuba_fuel_enough.
+
+Theorem quot_rem_karatsuba_fuel_bound :
+  forall x y : big,
+       wf_big x ->
+       wf_big y ->
+       bval y <> 0%Z ->
+       exists (fuel : nat) (q r : num),
+         quot_rem fuel (qr_mf (length (snd y)) (length (snd x))) x y = QR q r /\
+         nval q = (bval x ÷ bval y)%Z /\ nval r = Z.rem (bval x) (bval y) /\ wf_num q /\ wf_num r.
+Proof. exact ProofsBound.quot_rem_total_mf. Qed.
+Print Assumptions quot_rem_karatsuba_fuel_bound.
